@@ -124,6 +124,7 @@ static void * module_dlopen(const char *name)
 static struct module *module_load(const char *name)
 {
     void (*func)(const char *);
+    struct set_node *node;
     struct module *mod;
     struct module *prior;
 
@@ -149,6 +150,15 @@ static struct module *module_load(const char *name)
     if (!loading_module->handle) {
         log_message(log_core, LOG_FATAL, "Unable to load module %s: %s", name, dlerror());
         return NULL;
+    }
+    /* One object can be named in more than one way ("iauth", "./iauth",
+     * its full path); it still has only one constructor to run. */
+    for (node = set_first(&modules); node; node = set_next(node)) {
+        struct module *other = set_node_data(node);
+        if ((other != mod) && (other->handle == mod->handle)) {
+            log_message(log_core, LOG_FATAL, "Module %s is the same object as module %s.", name, other->name);
+            return NULL;
+        }
     }
     func = dlsym(loading_module->handle, "module_constructor");
     /* Hand over our own copy of the name: a module may keep the pointer,
